@@ -108,6 +108,10 @@ def case_qed(log, nf):
     beta = sym_module("eko.beta")
     log.encode(beta.beta_qed_aem2, beta.beta_qed_aem3, beta.beta_qcd_as2aem1, beta.beta_qed_aem2as1, beta.beta_qed, beta.beta_qcd)
 
+    # if the symbolic run cannot complete (e.g. nl reaching an integer-only slot), the numeric replays decide
+    for nm in ("b_qed((0,3))", "b_qed((1,2))", "b_qed((0,2))", "beta_qed((0,2))", "beta_qed((0,3))", "beta_qed((1,2))"):
+        log.register_replay("%s:literature" % nm, (MOD, "replay_qed", {"name": nm, "nf": nf}), _sampler_nl)
+
     def run():
         nl = SR.var("nl")
         assume(nl, ">=0")
@@ -121,6 +125,11 @@ def case_qed(log, nf):
             ("beta_qed((0,3))", beta.beta_qed((0, 3), nf, nl), L.beta_qed1(nf, nl), 20),
             ("beta_qed((1,2))", SR(0) + beta.beta_qed((1, 2), nf, nl), SR(0) + L.beta_qed_aem2as1(nf), 30),
             ("beta_qcd((2,1))", SR(0) + beta.beta_qcd((2, 1), nf), SR(0) + L.beta_qcd_as2aem1(nf), 5),
+            # the normalised coefficients, cross-multiplied: b_qed(k) * beta0_qed(nf, nl) == beta_qed(k)   (nf and nl in their own slots)
+            ("b_qed((0,3))", beta.b_qed((0, 3), nf, nl) * L.beta_qed0(nf, nl), L.beta_qed1(nf, nl), 20),
+            ("b_qed((1,2))", SR(0) + beta.b_qed((1, 2), nf, nl) * L.beta_qed0(nf, nl), SR(0) + L.beta_qed_aem2as1(nf), 30),
+            ("b_qed((0,2))", SR(0) + beta.b_qed((0, 2), nf, nl), SR(1), 1),
+            ("b_qcd((2,1))", SR(0) + beta.b_qcd((2, 1), nf) * L.beta0(nf), SR(0) + L.beta_qcd_as2aem1(nf), 5),
         ]
         for name, got, want, scale in items:
             diff = got - want
@@ -159,6 +168,10 @@ def replay(point, name):
     return None
 
 
+def _sampler_nl(rng):
+    return {"nl": Fraction(rng.randrange(4))}
+
+
 def replay_dispatch(point, k=None, b=False, g=None):
     import eko.beta as beta
     import eko.gamma as gamma
@@ -190,6 +203,10 @@ def replay_qed(point, name, nf):
         "beta_qed((0,3))": (lambda: beta.beta_qed((0, 3), nf, nl), L.beta_qed1(nf, Fraction(nl))),
         "beta_qed((1,2))": (lambda: beta.beta_qed((1, 2), nf, nl), L.beta_qed_aem2as1(nf)),
         "beta_qcd((2,1))": (lambda: beta.beta_qcd((2, 1), nf), L.beta_qcd_as2aem1(nf)),
+        "b_qed((0,3))": (lambda: beta.b_qed((0, 3), nf, nl), L.beta_qed1(nf, Fraction(nl)) / L.beta_qed0(nf, Fraction(nl))),
+        "b_qed((1,2))": (lambda: beta.b_qed((1, 2), nf, nl), L.beta_qed_aem2as1(nf) / L.beta_qed0(nf, Fraction(nl))),
+        "b_qed((0,2))": (lambda: beta.b_qed((0, 2), nf, nl), Fraction(1)),
+        "b_qcd((2,1))": (lambda: beta.b_qcd((2, 1), nf), L.beta_qcd_as2aem1(nf) / L.beta0(nf)),
     }
     f, want = tab[name]
     got = f()
